@@ -323,4 +323,13 @@ Section C02Model.
   Definition cv_coordnum_pl (pl : list bool) (r0 : T) (r0v : option V3) (en ed : Z) (tol : T) (cell : option V3) (g1 g2 : list atom) : T :=
     lsum (fun t : bool * (atom * atom) => if fst t then switching r0 r0v en ed tol cell (a_pos (fst (snd t))) (a_pos (snd (snd t))) else zero)
          (combine pl (all_pairs g1 g2)).
+  (* ---------------------------------------------------------------- a group fitted through another group
+     (atom_group::calc_apply_roto_translation with centerToReference on, rotateToReference on/off, optional fittingGroup):
+     fitg is the group used for the fit (the group itself without a fittingGroup); q is the optimal quaternion of
+     fit_pairs ref fitg *)
+  Definition fit_general (rotate_on : bool) (q : Q4) (ref : list V3) (fitg g : list atom) : list V3 :=
+    let c := cog fitg in let rc := pts_cog ref in
+    map (fun a => let p0 := v3sub O (a_pos a) c in
+                  v3add O (if rotate_on then rotate q p0 else p0) rc) g.
+  Definition flat_coords (l : list V3) : list T := flat_map (fun p => let '(x, y, z) := p in [x; y; z]) l.
 End C02Model.
